@@ -15,6 +15,7 @@ def run(ctx):
     S.erv1_final_pass(ctx)
     LM.flw1_limit_arithmetic(ctx)
     O.opt1_shared_optional_payload(ctx)
+    O.flw7_catalogue_lookups_on_query_path(ctx)
     K.chk7_scalar_implementations(ctx)
     return ctx.finish(
         'Static analysis of compiler MIR: deadlock-freedom clauses (acyclic lock-order graph over '
